@@ -6,6 +6,7 @@ import (
 	"math/rand"
 	"strconv"
 	"strings"
+	"time"
 
 	"verif/harness/core"
 	"verif/harness/sx"
@@ -36,9 +37,10 @@ var leafSrc = map[string][]string{
 	"svr": {">=1.0.0 <2.0.0", "1.x", "~1.2.3", ">=1.0.0"},
 	"ts":  {"0", "90", "-5", "86400"},
 	"tm":  {"2020-01-02T03:04:05.000006000 UTC", "1970-01-01T00:00:00.000000000 UTC"},
-	"uri": {"http://example.com/a?b=c#d", "file:///tmp/x", "urn:isbn:1"},
+	"uri": {"http://example.com/a?b=c#d", "file:///tmp/x", "urn:isbn:1", "http://user:pw@example.com:8080/p%20q?x=1&y=%2F#f"},
 	"ty": {"String", "Integer[1, 2]", "Array[String]", "Optional[Hash[String, Integer]]", "Type[Integer]",
-		"Struct[{'a' => String}]", "Enum['a', 'b']", "Variant[String, Integer]", "Any", "Pattern[/a/]"},
+		"Struct[{'a' => String}]", "Enum['a', 'b']", "Variant[String, Integer]", "Any", "Pattern[/a/]", "String[1, 2]",
+		"Timespan['0-00:00:00.0', '0-00:01:30.0']", "Timestamp[default, '2020-01-01T00:00:00.000000000 UTC']"},
 	"td": {"Verif::Pair", "Verif::Ints", "Verif::Unit"},
 }
 
@@ -48,6 +50,21 @@ var tdefSrc = []string{
 	`Object[{name => 'Verif::Fresh', attributes => {'z' => Integer}}]`,
 	`Object[{attributes => {'z' => Integer}}]`,
 	`Object[{name => 'Verif::Fresh2', parent => Verif::Pair, attributes => {'c' => {'type' => String, 'value' => 'x'}}}]`,
+}
+
+// further sources for the stand-alone codec check
+var codecExtra = [][2]string{
+	{"rx", `a/b`}, {"rx", `\\/`}, {"rx", "(?i)x"}, {"rx", "é+"}, {"rx", "a\nb"}, {"rx", "^$"}, {"rx", `[/]`}, {"rx", `'"`},
+	{"uri", "http://user:pw@example.com:8080/p%20q?x=1&y=%2F#f"}, {"uri", "http://[::1]:80/"}, {"uri", "mailto:a@b.c"},
+	{"uri", "/relative/path"}, {"uri", "?q"}, {"uri", "http://example.com/é"}, {"uri", "a:b:c"},
+	{"ts", "9223372036"}, {"ts", "-9223372036"},
+	{"tm", "0001-01-01T00:00:00.000000000 UTC"}, {"tm", "9999-12-31T23:59:59.999999999 UTC"}, {"tm", "2020-02-29T12:00:00.000000000 UTC"},
+	{"ty", "Callable[[String, Integer], Float]"}, {"ty", "Struct[{Optional['a'] => String, 'b' => Integer}]"}, {"ty", "Tuple[String, Integer, 1, 3]"},
+	{"ty", `Enum['it\'s', 'a\\b']`}, {"ty", `Pattern[/a\/b/]`}, {"ty", "String[1, 2]"}, {"ty", "Float[1.5, 2.5]"}, {"ty", "Sensitive[String]"},
+	{"ty", "Type[Array[Integer[0, 9]]]"}, {"ty", "Iterable[String]"}, {"ty", "NotUndef[Integer]"}, {"ty", "Timespan[0, 90]"}, {"ty", "SemVer['>=1.0.0']"},
+	{"ty", "Hash[String, Array[Variant[Integer, Undef]], 1, 5]"}, {"ty", "Optional['x']"}, {"ty", "Integer[default, 5]"}, {"ty", "Collection[1, 2]"},
+	{"ty", "Array[String, 0, 0]"}, {"ty", "Regexp[/x/]"}, {"ty", "URI[{'scheme' => 'http'}]"}, {"ty", "Binary"}, {"ty", "Boolean[true]"}, {"ty", "Default"},
+	{"ty", "Runtime['go', 'x']"}, {"ty", "TypeReference['A::B']"}, {"ty", "Like[String]"}, {"ty", "Init[Integer]"}, {"ty", "Undef"},
 }
 
 type vgen struct {
@@ -480,6 +497,33 @@ func gen(g *core.G) {
 	for i := 0; i < 300*g.Scale/2+150; i++ {
 		vg := &vgen{r: g.Rng}
 		emitMatrix(g, c, vg.value(1+g.Rng.Intn(3), false))
+	}
+	// the real leaf codecs on their own (implementation only)
+	for _, k := range leafKinds {
+		for _, src := range leafSrc[k] {
+			g.Emit("@codec " + k + " " + h(src))
+		}
+	}
+	for _, kv := range codecExtra {
+		g.Emit("@codec " + kv[0] + " " + h(kv[1]))
+	}
+	r := g.Rng
+	for i := 0; i < 300*g.Scale; i++ {
+		g.Emit("@codec ts " + h(strconv.FormatInt(r.Int63n(4000000000)-2000000000, 10)))
+		t := time.Unix(r.Int63n(8000000000)-4000000000, int64(r.Intn(1000000000))).UTC()
+		g.Emit("@codec tm " + h(t.Format("2006-01-02T15:04:05.000000000")+" UTC"))
+		ver := fmt.Sprintf("%d.%d.%d", r.Intn(30), r.Intn(30), r.Intn(30))
+		if r.Intn(2) == 0 {
+			ver += "-" + []string{"rc1", "alpha.1", "0.3.7", "x.7.z.92", "beta"}[r.Intn(5)]
+		}
+		if r.Intn(3) == 0 {
+			ver += "+" + []string{"b5", "20130313144700", "exp.sha.5114f85"}[r.Intn(3)]
+		}
+		g.Emit("@codec sv " + h(ver))
+		// a non-empty range: lo < hi (the empty range has several representations that the semver library does not equate)
+		lo, hi := fmt.Sprintf("%d.%d.%d", r.Intn(10), r.Intn(30), r.Intn(30)), fmt.Sprintf("%d.%d.%d", 10+r.Intn(10), r.Intn(30), r.Intn(30))
+		rng := []string{">=" + ver, "<" + ver, ">" + lo + " <=" + hi, "~" + hi, "^" + hi, lo + " - " + hi, lo + " || " + hi, fmt.Sprintf("%d.x", r.Intn(9)), fmt.Sprintf("%d.%d.x", r.Intn(9), r.Intn(9))}[r.Intn(9)]
+		g.Emit("@codec svr " + h(rng))
 	}
 	// malformed ops (outside the quantifier; both sides must answer bad-op)
 	for _, v := range []string{"(= 1)", "(a 1 (= 1))", "(a 1 (a 1))", "(h 1 ((i 1)))", "(q)", "(l 1 zz x x)"} {
